@@ -225,6 +225,11 @@ func (r *FeatureLocal) ApproveOrDenyWrite(msg *api.Message, err model.ErrorType)
 		return
 	}
 
+	// a write without a message counter is never pending, see addPendingApproval
+	if msg.RequestHeader == nil || msg.RequestHeader.MsgCounter == nil {
+		return
+	}
+
 	ski := msg.DeviceRemote.Ski()
 
 	r.muxResponseCB.Lock()
